@@ -150,6 +150,7 @@ type SrvMonitor struct {
 	bad       map[string]bool // identities that broke the consistency hypothesis (several ids per hardware address)
 	idOfMac   map[string]string
 	macOfID   map[string]string
+	optProp   string // additionally report option mismatches under this property (C09 in the burst stream)
 	respTable map[uint32]*Responder
 }
 
@@ -593,6 +594,10 @@ func (m *SrvMonitor) checkOptions(rp *Reply, q Req) {
 				ok = false
 			}
 		}
+	}
+	if !ok && m.optProp != "" {
+		m.fail(m.optProp, "options-of-another-packet", "a reply carries parameters that are not the ones configured for its client (another packet in flight leaked into it)",
+			fmt.Sprintf("got=%v want=%v", got, want))
 	}
 	if !ok {
 		m.fail("C07", "options", "OFFER/ACK options differ from the configured lease duration, netmask, router, DNS, NTP, domain (with per-client overrides)",
